@@ -8,15 +8,17 @@ import numpy as np
 
 from . import methods as M
 from . import traj
+from . import looptbl
 from .common import Disagreement, drive, ROOT
 
 PROP_MODULE = 'PbVerif.Props.C09'
-GEN_TABLES = ('WeightExprs',)      # a rule of _weighting.py that leaves the translated fragment is reported
+GEN_TABLES = ('WeightExprs', 'Loops')      # a rule of _weighting.py / a loop that leaves the translated fragment is reported
 RULE = ('cases = (rule, residual vector kind in {mixed, all positive, all negative, ties at zero, < 2 negatives}, size 3..2000, '
         'magnitude 1e-100..1e100, scheme parameters, iteration 1..200) compared with the Lean Float instance of the rule, plus direct '
         'checks of finiteness / range / monotonicity on the real output; hosts: trajectory replay of (max_iter, tol) grids through the '
         'Lean loop skeleton on noisy and on noise-free data (documented early exit) and the pairing weights = rule(returned baseline) at '
-        'exhaustion; non-trivial = at least two negative residuals; distinct by canonical tuple; source expressions: every weight '
+        'exhaustion; the loops as translated from the source (Gen/Loops): every row with an early-exit flag replayed on the noise-free sets, '
+        'a sample of the others on noisy data, against the real call observed by LoopSpy; non-trivial = at least two negative residuals; distinct by canonical tuple; source expressions: every weight '
         'expression translated from the text of _weighting.py on this run (Gen/WeightExprs) is evaluated by the driver (c09.wexpr) on the '
         'same residual vectors, with the step statistics computed by the real helpers, and must reproduce the real function to a few ulp')
 ASSUMPTIONS = [
@@ -403,6 +405,22 @@ def host_level(ctx, rng, dis):
                                     f'weights are not the rule applied to the returned baseline', {'method': name, 'two_d': two_d, 'max_iter': mi}, True))
 
 
+def table_level(ctx, rng, dis):
+    """the stop rule of each loop AS TRANSLATED from the source (Gen/Loops, theorem `loops_stop_first`): every row with an early-exit
+    flag is replayed on the noise-free data sets that provoke the exit, a sample of the others on noisy data (C01 replays them all)"""
+    dis += looptbl.table_check(ctx, traj.load_golden_file())
+    for key, func, kind, r in looptbl.rows():
+        if kind != 'single':
+            continue
+        two_d = key.startswith('2d.')
+        if any(ev[0] == 'brk' and ev[1] == 'flag' for ev in r['body']):
+            x, z, _ = looptbl._data(rng, two_d)
+            for dn, yy in noise_free_sets(two_d).items():
+                dis += looptbl.replay_single(ctx, key, func, r, rng, K=40, data=(x, z, yy), note=f' [noise-free {dn} data]')
+        elif ctx.thorough or rng.random() < 0.35:
+            dis += looptbl.replay_single(ctx, key, func, r, rng, K=8)
+
+
 def correspond(ctx):
     rng = ctx.np_rng()
     dis = []
@@ -424,6 +442,7 @@ def correspond(ctx):
         dis.append(Disagreement('c09.fuzz', f'fuzz:{spec["steps"][-1]["method"]}',
                                 f'history on one fitter: {hist.describe(spec)[:700]} — call {f[0] + 1}: {f[2]} (the weights / baseline are not what an independent '
                                 f'evaluation of the documented rule on a fresh fitter gives)', {'kind': 'fuzz', 'spec': spec}, True))
+    table_level(ctx, rng, dis)
     return dis
 
 
@@ -438,4 +457,6 @@ def replay(ctx, data):
         from . import hist
         f = [x for x in hist.run(r['spec'], want=('fresh',)) if x[1] == 'fresh']
         return f'call {f[0][0] + 1}: {f[0][2]}' if f else None
+    if r.get('kind') == 'looptbl':
+        return looptbl.replay(ctx, data['replay'])
     return None
